@@ -19,15 +19,10 @@ def maxSmallMap : Nat := 4
 
 abbrev GM := M Obj Obj
 
-inductive Op where
-  | lit (pairs : List (Obj × Obj))
-  | set (k v : Obj)
-  | del (k : Obj)
-  | app (pairs : List (Obj × Obj))
-  | rest
-  | range (lo hi : Nat)
+abbrev Op := Map.Op Obj Obj
 
 def parseOp (s : String) : Option Op :=
+  open Map.Op in
   match s.toList with
   | 'L' :: r => match Value.ofString (String.ofList r) with | some (.map kvs) => some (.lit kvs) | _ => none
   | 'A' :: r => match Value.ofString (String.ofList r) with | some (.map kvs) => some (.app kvs) | _ => none
@@ -53,47 +48,12 @@ def opDataKVs : List (Obj × Obj) → Bool
   | (k, v) :: xs => opData k && opData v && opDataKVs xs
 end
 
-def Op.keysData : Op → Bool
+def keysData : Op → Bool
   | .lit ps => ps.all fun kv => isData kv.1
   | .app ps => ps.all fun kv => isData kv.1
   | .set k _ => isData k
   | .del k => isData k
   | _ => true
-
-/-! ### the model run -/
-
-/-- `none` = the variable holds NULL (after `rest` of a map with at most one pair) or a slice out of range -/
-def stepModel (m : Option GM) (op : Op) : Option GM :=
-  match op with
-  | .lit ps => some (literal cmpD maxSmallMap ps)
-  | op =>
-    match m with
-    | none => none
-    | some m =>
-      match op with
-      | .lit ps => some (literal cmpD maxSmallMap ps)
-      | .set k v => some (set cmpD maxSmallMap m k v)
-      | .del k => some (delete cmpD m k).1
-      | .app ps => some (append cmpD maxSmallMap m (literal cmpD maxSmallMap ps))
-      | .rest => rest maxSmallMap m
-      | .range lo hi => range maxSmallMap m lo hi
-
-/-! ### the reference run (`Spec.FinMap`) -/
-
-def stepSpec (m : Option (List (Obj × Obj))) (op : Op) : Option (List (Obj × Obj)) :=
-  match op with
-  | .lit ps => some (Spec.insertAll cmpD [] ps)
-  | op =>
-    match m with
-    | none => none
-    | some l =>
-      match op with
-      | .lit ps => some (Spec.insertAll cmpD [] ps)
-      | .set k v => some (Spec.insert cmpD k v l)
-      | .del k => some (Spec.erase cmpD k l)
-      | .app ps => some (Spec.insertAll cmpD l (Spec.insertAll cmpD [] ps))
-      | .rest => if l.length ≤ 1 then none else some l.tail
-      | .range lo hi => if lo ≤ hi ∧ hi ≤ l.length then some ((l.take hi).drop lo) else none
 
 /-! ### printed form (`Inspect()`) for the values the suite uses -/
 
@@ -219,8 +179,8 @@ def runCase (inp obs : String) : CaseResult :=
           (if ops = "" then some [] else (splitOn ops ';').mapM parseOp), parseObs obs with
     | some keys, some ops, some io =>
       let implPr := match io with | some o => o.pr | none => ""
-      let mm := ops.foldl stepModel none
-      let sm := ops.foldl stepSpec none
+      let mm := Map.run cmpD maxSmallMap ops
+      let sm := Map.Spec.run cmpD ops
       let mo := mm.map fun m => obsModel keys m implPr
       -- the statement: every observation (except the representation) is the reference map's
       let stmt (o : Option Obs) : Bool :=
@@ -228,7 +188,7 @@ def runCase (inp obs : String) : CaseResult :=
         | none, none => true
         | some o, some l => o == obsSpec keys l implPr o.rep
         | _, _ => false
-      let dataOk := ops.all Op.keysData && keys.all isData
+      let dataOk := ops.all keysData && keys.all isData
       let last := match ops.getLast? with | some op => opTag op | none => "none"
       { model := renderOO mo, agree := mo == io, stmtModel := stmt mo, stmtImpl := stmt io,
         tags := ["mode:" ++ mode, "last:" ++ last,
